@@ -17,8 +17,7 @@ From Coq Require Import Strings.Byte.
 Import ListNotations.
 From JS Require Import Common.Wire Schema.Shape Schema.ShapeProofs Json.Scanner Json.Grammar Json.GrammarProofs Json.ScannerProofs.
 
-Theorem C13_document_property_order : forall ms nl an dms dms',
-  no_nullable_container (SObj ms nl an) = true -> Permutation dms dms' ->
+Theorem C13_document_property_order : forall ms nl an dms dms', Permutation dms dms' ->
   (validate (SObj ms nl an) (Shape.JObj dms) = None <-> validate (SObj ms nl an) (Shape.JObj dms') = None).
 Proof. exact validate_perm. Qed.
 Print Assumptions C13_document_property_order.
